@@ -1,3 +1,249 @@
 package main
 
-func procMode(seed uint64, rounds int) {}
+import (
+	"bytes"
+	"fmt"
+	"os"
+	"path/filepath"
+	"strconv"
+	"strings"
+	"syscall"
+	"time"
+
+	"verifharness/hutil"
+)
+
+// Node is a generated process tree, rendered to bash
+type Node struct {
+	Kind      string  `json:"kind"` // sleep | par | pipe | sub | seq
+	IgnoreInt bool    `json:"ignore_int,omitempty"`
+	Detach    bool    `json:"detach,omitempty"`  // (as a background child) redirected away from the task's output pipes
+	NoWait    bool    `json:"no_wait,omitempty"` // par: the parent does not wait for its background children
+	NewBash   bool    `json:"new_bash,omitempty"`
+	Children  []*Node `json:"children,omitempty"`
+}
+
+func genTree(r *hutil.Rng, depth int) *Node {
+	if depth <= 0 || r.Chance(1, 4) {
+		return &Node{Kind: "sleep", IgnoreInt: r.Chance(1, 4)}
+	}
+	n := &Node{Kind: []string{"par", "par", "pipe", "sub", "seq"}[r.Intn(5)], IgnoreInt: r.Chance(1, 5), NewBash: r.Chance(1, 4)}
+	k := 1
+	switch n.Kind {
+	case "par":
+		k = 1 + r.Intn(3)
+		n.NoWait = r.Chance(1, 3)
+	case "pipe":
+		k = 2
+	case "seq":
+		k = 1 + r.Intn(2)
+	}
+	for i := 0; i < k; i++ {
+		c := genTree(r, depth-1)
+		if n.Kind == "par" {
+			c.Detach = r.Chance(1, 2)
+		}
+		n.Children = append(n.Children, c)
+	}
+	return n
+}
+
+type renderer struct {
+	dir   string
+	count int
+}
+
+func (rd *renderer) render(n *Node) string {
+	var s string
+	switch n.Kind {
+	case "sleep":
+		if n.IgnoreInt {
+			s = "( trap '' INT; exec sleep 300 )"
+		} else {
+			s = "sleep 300"
+		}
+	case "par":
+		var parts []string
+		for _, c := range n.Children {
+			p := rd.render(c)
+			if c.Detach {
+				p += " >/dev/null 2>&1 </dev/null"
+			}
+			parts = append(parts, p+" &")
+		}
+		tail := "wait"
+		if n.NoWait {
+			tail = "sleep 0.05"
+		}
+		s = "{ " + strings.Join(parts, " ") + " " + tail + "; }"
+	case "pipe":
+		s = rd.render(n.Children[0]) + " | " + rd.render(n.Children[1])
+	case "sub":
+		s = "( " + rd.render(n.Children[0]) + " )"
+	case "seq":
+		var parts []string
+		for _, c := range n.Children {
+			parts = append(parts, rd.render(c))
+		}
+		s = "{ echo start; " + strings.Join(parts, "; ") + "; }"
+	}
+	if n.IgnoreInt && n.Kind != "sleep" {
+		s = "( trap '' INT; " + s + " )"
+	}
+	if n.NewBash {
+		rd.count++
+		f := filepath.Join(rd.dir, fmt.Sprintf("tree_%d.sh", rd.count))
+		_ = os.WriteFile(f, []byte(s+"\n"), 0755)
+		s = "bash " + f
+	}
+	return s
+}
+
+// procsWithMark scans /proc/*/environ for the marker; zombies have no environ and do not count
+func procsWithMark(mark string) []int {
+	needle := []byte("VERIF_MARK=" + mark + "\x00")
+	ents, _ := os.ReadDir("/proc")
+	var pids []int
+	for _, e := range ents {
+		pid, err := strconv.Atoi(e.Name())
+		if err != nil {
+			continue
+		}
+		b, err := os.ReadFile("/proc/" + e.Name() + "/environ")
+		if err != nil || len(b) == 0 {
+			continue
+		}
+		b = append(b, 0)
+		if bytes.Contains(b, needle) {
+			st, _ := os.ReadFile("/proc/" + e.Name() + "/stat")
+			if i := bytes.LastIndexByte(st, ')'); i >= 0 && i+2 < len(st) && st[i+2] == 'Z' {
+				continue
+			}
+			pids = append(pids, pid)
+		}
+	}
+	return pids
+}
+
+func settle(mark string, max time.Duration) int {
+	deadline := time.Now().Add(max)
+	last, since := -1, time.Now()
+	for time.Now().Before(deadline) {
+		n := len(procsWithMark(mark))
+		if n != last {
+			last, since = n, time.Now()
+		} else if n > 0 && time.Since(since) > 120*time.Millisecond {
+			break
+		}
+		time.Sleep(10 * time.Millisecond)
+	}
+	return last
+}
+
+func cmdline(pid int) string {
+	b, _ := os.ReadFile(fmt.Sprintf("/proc/%d/cmdline", pid))
+	return strings.ReplaceAll(strings.TrimRight(string(b), "\x00"), "\x00", " ")
+}
+
+const killTimeout = 2 * time.Second
+
+func procMode(seed uint64, rounds int) {
+	rng := hutil.NewRng(seed)
+	dir, err := os.MkdirTemp("", "realrun-proc")
+	if err != nil {
+		panic(err)
+	}
+	defer os.RemoveAll(dir)
+	rd := &renderer{dir: dir}
+	// the pipelines: one task running a tree given by variable, at the interpreter level or below bash
+	defs := map[string]PipeDef{
+		"tree": {Concurrency: 64, Tasks: map[string]TaskDef{"t": {Script: []string{"VERIF_MARK={{.mark}} bash {{.file}}"}}}},
+		// the interpreter itself runs several commands: pipeline, background, sequence
+		"interp": {Concurrency: 64, Tasks: map[string]TaskDef{"t": {Script: []string{
+			"export VERIF_MARK={{.mark}}; sleep 300 & bash {{.file}} | cat; wait"}}}},
+		"two": {Concurrency: 64, Tasks: map[string]TaskDef{
+			"t": {Script: []string{"VERIF_MARK={{.mark}} bash {{.file}}"}},
+			"u": {Script: []string{"VERIF_MARK={{.mark}} sleep 300"}}}},
+	}
+	a, err := startApp(defs)
+	if err != nil {
+		emit(map[string]interface{}{"kind": "error", "what": err.Error()})
+		return
+	}
+	defer a.Stop()
+	// a bystander job whose processes must never be touched
+	byMark := fmt.Sprintf("by%d", os.Getpid())
+	byFile := filepath.Join(dir, "bystander.sh")
+	_ = os.WriteFile(byFile, []byte("sleep 300 & sleep 300 | cat\n"), 0755)
+	byID, _, _ := a.Schedule("tree", map[string]interface{}{"mark": byMark, "file": byFile})
+	byCount := settle(byMark, 3*time.Second)
+	for round := 0; round < rounds; round++ {
+		r := rng.Fork()
+		tree := genTree(r, 1+r.Intn(3))
+		rd.count++
+		file := filepath.Join(dir, fmt.Sprintf("top_%d.sh", rd.count))
+		_ = os.WriteFile(file, []byte(rd.render(tree)+"\n"), 0755)
+		mark := fmt.Sprintf("m%d_%d_%d", os.Getpid(), seed, round)
+		pipe := []string{"tree", "tree", "interp", "two"}[r.Intn(4)]
+		rec := map[string]interface{}{"kind": "proc", "round": round, "pipeline": pipe, "tree": tree, "mark": mark}
+		script, _ := os.ReadFile(file)
+		rec["script"] = string(script)
+		id, st, msg := a.Schedule(pipe, map[string]interface{}{"mark": mark, "file": file})
+		if st != 202 {
+			rec["ok"], rec["what"] = false, fmt.Sprintf("schedule: %d %s", st, msg)
+			emit(rec)
+			continue
+		}
+		early := r.Chance(1, 3)
+		if early {
+			// cancel while the tree is still being built
+			for i := 0; i < 500 && len(procsWithMark(mark)) == 0; i++ {
+				time.Sleep(2 * time.Millisecond)
+			}
+			time.Sleep(time.Duration(r.Intn(60)) * time.Millisecond)
+		} else {
+			settle(mark, 3*time.Second)
+		}
+		before := procsWithMark(mark)
+		rec["early"], rec["procs_before"] = early, len(before)
+		t0 := time.Now()
+		cst := a.Cancel(id)
+		res, done := a.WaitDone(id, 4*killTimeout)
+		report := time.Since(t0)
+		at := procsWithMark(mark)
+		var atCmd []string
+		for _, p := range at {
+			atCmd = append(atCmd, fmt.Sprintf("%d:%s", p, cmdline(p)))
+		}
+		// scheduling latency: a killed process may need a moment to be gone
+		time.Sleep(100 * time.Millisecond)
+		soon := procsWithMark(mark)
+		bystanders := len(procsWithMark(byMark))
+		time.Sleep(killTimeout + 300*time.Millisecond - report)
+		final := procsWithMark(mark)
+		rec["cancel_status"], rec["reported"], rec["report_ms"] = cst, done, report.Milliseconds()
+		rec["alive_at_report"], rec["alive_at_report_cmd"], rec["alive_100ms_after_report"], rec["alive_after_timeout"] = len(at), atCmd, len(soon), len(final)
+		rec["bystanders"], rec["bystanders_expected"] = bystanders, byCount
+		if res != nil {
+			rec["canceled"] = res.Canceled
+		}
+		ok := done && len(soon) == 0 && len(final) == 0 && bystanders == byCount && report <= killTimeout+1500*time.Millisecond && res != nil && res.Canceled
+		rec["ok"] = ok
+		emit(rec)
+		for _, p := range final {
+			_ = syscall.Kill(p, syscall.SIGKILL)
+		}
+	}
+	// the bystander is still running and complete; cancel it at the end
+	bj, _ := a.Detail(byID)
+	emit(map[string]interface{}{"kind": "bystander", "completed": bj != nil && bj.Completed, "procs": len(procsWithMark(byMark)), "expected": byCount,
+		"ok": bj != nil && !bj.Completed && len(procsWithMark(byMark)) == byCount})
+	a.Cancel(byID)
+	a.WaitDone(byID, 4*killTimeout)
+	time.Sleep(150 * time.Millisecond)
+	left := procsWithMark(byMark)
+	emit(map[string]interface{}{"kind": "bystander_end", "alive": len(left), "ok": len(left) == 0})
+	for _, p := range left {
+		_ = syscall.Kill(p, syscall.SIGKILL)
+	}
+}
